@@ -805,6 +805,13 @@ def check_C11(ctx):
     align_pair(ctx, ("ReaderWithPos", "SliceWithPos"))
     rep.rule("STORE", "store writes nothing but the serialized stream (one serialize call): bytes no reader consumes would make a cut inside them invisible")
     rules_loader.rule_store(u, rep)
+    rep.rule("CUR-READ", "the crate's own std::io::Read implementation (AlignedCursor) hands out only bytes before its logical end: a prefix held in it ends where the prefix ends")
+    subc = Report("C11", ctx.tier)
+    rules_cursor.rule_cursor(ctx.universe(), subc)
+    for f in subc.findings:
+        if f.rule in ("CUR-READ", "ANCHOR"):
+            rep.findings.append(f)
+    rep.oblige(not any(f.rule == "CUR-READ" for f in subc.findings))
     return ("Static content of 'a strict prefix is never turned into a value': sibling agreement of the byte consumption, error discipline of every read, closed list of ways "
             "the eps reader touches the input (bounds-checked), exact mapping length. Which error each individual cut yields is not decided.")
 
